@@ -99,6 +99,31 @@ def check_lazy(project: Project, rep):
             isinstance(x, ast.Attribute) and isinstance(x.value, ast.Name) and x.value.id == "self" and x.attr in LAZY[cq]
             for x in ast.walk(n.test)) and any(isinstance(s, ast.Return) for s in n.body)]
         if not tests:
+            # the 'already computed' exit may have been factored into a decorator of the package: its wrapper returns early on
+            # the stored data and only otherwise calls the method — then every store of the body happens with an empty cache
+            from .common import decorator_wrappers
+            deco_ok = False
+            for g_, w_, fname_ in decorator_wrappers(project, fi):
+                me_ = w_.args.args[0].arg if w_.args.args else None
+                cfg_w = CFG(w_)
+                for n_ in ast.walk(w_):
+                    if isinstance(n_, ast.If) and any(isinstance(x, ast.Attribute) and isinstance(x.value, ast.Name) and x.value.id == me_
+                                                      and x.attr in LAZY[cq] for x in ast.walk(n_.test)) \
+                            and any(isinstance(s_, ast.Return) for s_ in n_.body):
+                        tn_ = cfg_w.node_of(n_)
+                        calls_ = [cfg_w.node_of(c_) for c_ in ast.walk(w_) if isinstance(c_, ast.Call) and isinstance(c_.func, ast.Name)
+                                  and c_.func.id == fname_]
+                        if tn_ is not None and calls_ and all(c_ is not None and cfg_w.dominated_by_branch(c_.id, tn_.id, False)
+                                                             for c_ in calls_):
+                            deco_ok = True
+            bad_store = [st for st in stores if st.targets[0].attr not in LAZY[cq]]
+            if deco_ok and not bad_store:
+                rep.discharged("AR-LAZY", fi, f, f"{cq.rsplit('.', 1)[1]}.compute_landscape: the 'already computed' exit is taken by its "
+                                                 f"decorator, the body runs only when the cache is empty")
+                for st in stores:
+                    rep.discharged("AR-LAZY", fi, st, f"store to self.{st.targets[0].attr} happens only when the cache was empty (the "
+                                                      f"decorator returns the stored data otherwise)")
+                continue
             rep.refuted("AR-LAZY", fi, f, f"{cq.rsplit('.', 1)[1]}.compute_landscape has no 'already computed' early return: calling "
                                           f"an operator recomputes and overwrites the stored landscape",
                         construct=f"{fi.qualname}: cache test")
